@@ -33,6 +33,8 @@ def configs(tier):
             cfgs.append(dict(group='window', k=k, n=n, reads='var_first', _cost=n * n))
             cfgs.append(dict(group='window', k=k, n=n, reads='sparse', _cost=n * n))
     cfgs.append(dict(group='ctor'))
+    for k in (2, 3):
+        cfgs.append(dict(group='constant_window_fp', k=k, _cost=100))
     for k in ((16, 49, 64, 100, 257) if tier == 'quick' else (16, 31, 32, 33, 49, 64, 98, 100, 128, 255, 256, 257, 300, 513, 1000)):
         cfgs.append(dict(group='large_window', k=k, _cost=k))
     for k in (2, 3, 4):
@@ -148,3 +150,55 @@ def _large_window(env, cfg):
             m = guarded(env, 'mean', lambda: t.mean)
             env.claim('mean_of_last_min_n_k_large_window', (not is_nonfinite(m)) and eq(m * c, total(vs[i + 1 - c:i + 1])),
                       detail=f"k={k}, n={i + 1}")
+
+
+def _constant_window_fp(env, cfg):
+    """standard model of binary64 rounding: a window holding k copies of one (arbitrarily large) value c reports a variance
+    of at most 64 u^2 c^2 and a mean within 4 u |c| of c - i.e. no catastrophic cancellation for data with a large offset.
+    (A one-pass E[x^2] - E[x]^2 formula errs by about u c^2 and is refuted.)"""
+    import z3
+    from symx.fp import FPSym, U
+    from symx import Sym, And
+    k = cfg['k']
+    if env.mode != 'sym':
+        return _offset_window_replay(env, k)
+    t = guarded(env, 'constructor_on_installed_numpy', SlidingWindowTracker, k)
+    c = FPSym(z3.Real('c'))
+    env.assume(Sym(c.t) >= 1)
+    for _ in range(k + 1):
+        guarded(env, 'update', t.update, c)
+    var = guarded(env, 'var', lambda: t.var)
+    mean = guarded(env, 'mean', lambda: t.mean)
+    cc = Sym(c.t)
+    env.claim('variance_of_a_constant_window_is_negligible', And(Sym(var.t) <= 64 * U * U * cc * cc, Sym(var.t) >= -64 * U * U * cc * cc))
+    env.claim('mean_of_a_constant_window', And(Sym(mean.t) - cc <= 4 * U * cc, Sym(mean.t) - cc >= -4 * U * cc))
+
+
+def _offset_window_replay(env, k):
+    """concrete binary64 experiment for a refuted floating-point obligation: windows with a large common offset"""
+    import sys
+    import numpy as real_np
+    from fractions import Fraction
+    mod = sys.modules['ixai.utils.tracker.sliding_window']
+    saved = (mod.np, mod.__dict__.get('float'))
+    mod.np = real_np
+    mod.__dict__.pop('float', None)
+    try:
+        worst = None
+        for off in (1.7e9, 2.0 ** 40, 1e8):
+            t = SlidingWindowTracker(k)
+            vals = [off + i for i in range(k + 2)]
+            for v in vals:
+                t.update(v)
+            last = [Fraction(v) for v in vals[-k:]]
+            m = sum(last) / k
+            var = sum((a - m) ** 2 for a in last) / k
+            err = abs(Fraction(float(t.var)) - var) if t.var == t.var else Fraction(10 ** 9)
+            rel = float(err / var) if var else float(err)
+            worst = rel if worst is None else max(worst, rel)
+        env.claim('variance_of_a_constant_window_is_negligible', worst < 1e-6,
+                  detail=f"window of {k} consecutive values with offsets up to 2^40: relative variance error {worst:.3g}")
+    finally:
+        mod.np = saved[0]
+        if saved[1] is not None:
+            mod.__dict__['float'] = saved[1]
